@@ -143,9 +143,13 @@ theorem winv_stepX (w : World) (hw : WInv w) (op : WOpX) : WInv (w.stepX op) := 
   | assign j k => exact all_world hw (world_assign_inv hw j k)
   | attach k => exact all_world hw (world_attach_inv hw k)
   | setRoot k a => exact all_world hw (world_setRootObj_inv hw k a)
+  | graphAssign d hist =>
+    have hc := consistent_inv d hist
+    exact world_graphAssign_inv hw ⟨hc.views, hc.node_lt, hc.edge_lt, ⟨hc.sorted.nodes, hc.sorted.edges, hc.sorted.rows⟩⟩
 
 /-- **assoc_bijective**, over all histories that also copy observers with `clone()` and
-`operator=`, construct further observers on the same graph and set the root through an object -/
+`operator=`, construct further observers on the same graph, set the root through an object, and
+assign another graph (any graph reachable from the empty one) to the observed graph -/
 theorem assoc_bijective_ext (d : Bool) (ops : List WOpX) : WInv ((World.init d).runX ops) := by
   suffices h : ∀ w, WInv w → WInv (w.runX ops) from h _ (winv_init d)
   induction ops with
